@@ -52,7 +52,15 @@ fn raw_request(t: &mut Tape, cur_flat: bool, first: bool) -> LayerSpec {
 
 fn decode(tape: &[u32], tier: Tier) -> Case {
     let mut t = Tape::new(tape);
-    let kind = if t.chance(1, 5) { 1 } else { 0 };
+    let kind = if t.chance(1, 5) { 1 } else if t.chance(1, 250) { 2 } else { 0 };
+    if kind == 2 {
+        // large flat widths at and next to perfect squares
+        let r = t.usize(300, 800);
+        let delta: i64 = [0i64, 1, -1, 2, 0, r as i64, -2][t.pick(7)];
+        let width = ((r * r) as i64 + delta) as usize;
+        let req = raw_request(&mut t, false, true); // a spatial request
+        return Case { kind, input: vec![1], requests: vec![LayerSpec::Dense { out: width, act: ActK::Linear, bias: false, dropout: None }, req], seed: t.raw(), ident: vec![], tail_dense: false };
+    }
     if kind == 0 {
         let input = if t.bool() { vec![t.usize(1, 3), t.usize(1, 8), t.usize(1, 8)] } else { vec![t.usize(1, 30)] };
         let n = t.usize(1, tier.pick(5, 7));
@@ -258,6 +266,42 @@ fn check_identity(case: &Case, ev: &mut CaseEv) -> CheckResult {
     Ok(())
 }
 
+/// Large flat widths: r*r must be accepted in front of a spatial layer and read as 1 x r x r,
+/// anything else next to it must be rejected.
+fn check_large_square(case: &Case, ev: &mut CaseEv) -> CheckResult {
+    let LayerSpec::Dense { out: width, .. } = &case.requests[0] else { panic!("dense first") };
+    let width = *width;
+    let req = &case.requests[1];
+    let mut net = Network::new(input_shape(&case.input));
+    catch(std::panic::AssertUnwindSafe(|| add_layer(&mut net, &case.requests[0]))).map_err(|p| Fail::new(format!("dense layer of width {} rejected: {}", width, p)))?;
+    let root = isqrt_exact(width);
+    ev.class(if root.is_some() { "large perfect square -> spatial" } else { "large non-square -> spatial (must be rejected)" });
+    let fits = root.map(|r| model_out(&[1, r, r], req).is_some()).unwrap_or(false);
+    let r = catch(std::panic::AssertUnwindSafe(|| add_layer(&mut net, req)));
+    match (root, r) {
+        (None, Ok(())) => {
+            return Err(Fail::known(
+                format!("a {} layer was accepted after a flat output of length {} (not a perfect square); announced shapes: {:?}", req.kind(), width, announced_shapes(&net).ok().and_then(|v| v.last().cloned())),
+                "flat_nonsquare_accepted",
+            ))
+        }
+        (None, Err(_)) => {}
+        (Some(rt), Ok(())) => {
+            let ann = announced_shapes(&net).map_err(Fail::new)?;
+            ensure!(ann[1].0 == vec![1, rt, rt], "flat width {} = {}^2 announced as {:?}, expected [1, {}, {}]", width, rt, ann[1].0, rt, rt);
+            if let Some(m) = model_out(&[1, rt, rt], req) {
+                ensure!(ann[1].1 == m, "layer {:?} on 1x{}x{}: announced output {:?}, standard formula {:?}", req, rt, rt, ann[1].1, m);
+            }
+        }
+        (Some(rt), Err(p)) => {
+            ensure!(!fits, "valid {} request {:?} after a flat width {} = {}^2 was rejected: {}", req.kind(), req, width, rt, p);
+        }
+    }
+    ev.nontrivial = true;
+    ev.set_sig(&(2u8, width, req));
+    Ok(())
+}
+
 pub struct C08(pub Tier);
 
 impl Prop for C08 {
@@ -271,14 +315,14 @@ impl Prop for C08 {
         t.pick(500_000, 40_000_000)
     }
     fn rule(&self) -> String {
-        "tape-decoded (4/5) input shape (flat 1..30 or c 1-3 x h,w 1-8) + up to 5 (thorough 7) raw layer requests (dense width 1..30; convolution kernel 1-4, stride 1-3, padding 0..kernel+1, dilation 1-3; deconvolution kernel 1-4, stride 1-3, padding 0-3; pool kernel 1-4, stride 1-4), submitted one by one next to an independent shape model (standard formulas): model-valid requests must be accepted and announced (parsed from the Display text) as the model says, a spatial layer after a flat non-perfect-square width must be rejected, requests that do not fit are outside the property and are not submitted; forward on a random input must produce the announced shape for every layer (flattened where a dense layer follows), backward gradient tensors must have the parameters' shapes. (1/5) identity networks (1x1 unit kernels, 1x1 pools, identity dense, identity feedback block) around a flat->spatial or spatial->flat transition must reproduce the input sequence bitwise in row-major order. Non-trivial: depth >= 2 with a flat<->spatial transition, or an odd size / non-dividing stride / padding >= kernel, or an identity network with >= 2 elements. Distinct = (input shape, accepted request sequence).".into()
+        "tape-decoded (4/5) input shape (flat 1..30 or c 1-3 x h,w 1-8) + up to 5 (thorough 7) raw layer requests (dense width 1..30; convolution kernel 1-4, stride 1-3, padding 0..kernel+1, dilation 1-3; deconvolution kernel 1-4, stride 1-3, padding 0-3; pool kernel 1-4, stride 1-4), submitted one by one next to an independent shape model (standard formulas): model-valid requests must be accepted and announced (parsed from the Display text) as the model says, a spatial layer after a flat non-perfect-square width must be rejected, requests that do not fit are outside the property and are not submitted; forward on a random input must produce the announced shape for every layer (flattened where a dense layer follows), backward gradient tensors must have the parameters' shapes. (1/250 of the rest) flat widths r*r + {0, +-1, +-2, r} with r in 300..800 in front of a spatial layer: squares accepted and announced as 1 x r x r, all others rejected. (1/5) identity networks (1x1 unit kernels, 1x1 pools, identity dense, identity feedback block) around a flat->spatial or spatial->flat transition must reproduce the input sequence bitwise in row-major order. Non-trivial: depth >= 2 with a flat<->spatial transition, or an odd size / non-dividing stride / padding >= kernel, or an identity network with >= 2 elements. Distinct = (input shape, accepted request sequence).".into()
     }
     fn run_case(&self, tape: &[u32], ev: &mut CaseEv) -> CheckResult {
         let c = decode(tape, self.0);
-        if c.kind == 0 {
-            check_requests(&c, ev)
-        } else {
-            check_identity(&c, ev)
+        match c.kind {
+            0 => check_requests(&c, ev),
+            2 => check_large_square(&c, ev),
+            _ => check_identity(&c, ev),
         }
     }
     fn describe(&self, tape: &[u32]) -> Value {
